@@ -38,6 +38,8 @@ def make_config(prop, rng, tier):
         "p_import": rng.choice([0.1, 0.25, 0.5]),
         "batch_max": rng.choice([1, 2, 3]),
         "p_inputs": rng.choice([0.0, 0.2, 0.5]),
+        **({"max_boxes": rng.choice([10, 12, 14]), "max_steps": 30, "batch_max": 4}
+           if tier == "thorough" and rng.random() < 0.3 else {}),
     }
 
 
